@@ -28,7 +28,8 @@ echo "== demo on the unchanged tree"
 tail -3 "$OUT/demo_unchanged.log"
 del_demo
 echo "== apply change"
-git -C "$S" apply "$SRC/$L.patch.diff" || { echo "patch does not apply"; exit 3; }
+PATCH="$SRC/$L.patch.diff"; [ -f "$OUT/patch.ported.diff" ] && PATCH="$OUT/patch.ported.diff"
+git -C "$S" apply "$PATCH" || { echo "patch does not apply"; exit 3; }
 (cd "$S" && go build ./... ) > "$OUT/build.log" 2>&1; RB=$?
 echo "build rc=$RB"
 (cd "$S" && go test -vet=off -count=1 ./... ) > "$OUT/suite.log" 2>&1; RS=$?
